@@ -99,4 +99,26 @@ Answer(P, D) == Eval(P, D, << >>, DG)
 \* bag comparison of a sequence of mappings with logged rows (row = sequence of terms or "unbound", vars = names)
 RowOf(mu, vars) == [j \in 1..Len(vars) |-> IF <<"v", vars[j]>> \in DOMAIN mu THEN mu[<<"v", vars[j]>>] ELSE [k |-> "unbound"]]
 BagOfSeq(s) == [x \in {s[i] : i \in 1..Len(s)} |-> Cardinality({i \in 1..Len(s) : s[i] = x})]
+\* ---- variables in scope (SPARQL 1.1 section 18.2.1), and the "variable already in scope" error of Extend ----
+PosVars(pt) == IF "var" \in DOMAIN pt THEN {pt.var} ELSE {}
+RECURSIVE InScope(_)
+InScope(P) ==
+  CASE P.op = "bgp"    -> UNION {PosVars(P.tps[i][1]) \cup PosVars(P.tps[i][2]) \cup PosVars(P.tps[i][3]) : i \in 1..Len(P.tps)}
+    [] P.op = "union"  -> InScope(P.l) \cup InScope(P.r)
+    [] P.op = "graphc" -> InScope(P.inner)
+    [] P.op = "graphv" -> InScope(P.inner) \cup {P.v}
+    [] P.op = "filter" -> InScope(P.inner)
+    [] P.op = "extend" -> InScope(P.inner) \cup {P.v}
+    [] P.op = "distinct" -> InScope(P.inner)
+    [] P.op = "project" -> {P.vars[j] : j \in 1..Len(P.vars)}
+    [] P.op = "slice"  -> InScope(P.inner)
+RECURSIVE Overrides(_)
+Overrides(P) ==
+  CASE P.op = "bgp"    -> FALSE
+    [] P.op = "union"  -> Overrides(P.l) \/ Overrides(P.r)
+    [] P.op = "extend" -> Overrides(P.inner) \/ P.v \in InScope(P.inner)
+    [] OTHER -> Overrides(P.inner)
+\* Slice without ORDER BY: any sub-bag of the right size of the inner result is acceptable (order is implementation-defined)
+SliceSize(n, start, len) == LET rest == IF n > start THEN n - start ELSE 0 IN IF len < 0 THEN rest ELSE IF len < rest THEN len ELSE rest
+SubBag(a, b) == \A x \in DOMAIN a : x \in DOMAIN b /\ a[x] <= b[x]
 ====
